@@ -64,7 +64,22 @@ type Registry struct {
 	// ClientTimeout is the per-request timeout of the http.Client handed out by Hosts (the daemon always
 	// configures one: default 30 s, see service/resolver.RegistryHostsFromConfig).  Default 1 s.
 	ClientTimeout time.Duration
+	// Piece > 0 makes every response body deliver at most Piece bytes per Read, like a network does.
+	Piece int
 }
+
+type pieceReader struct {
+	r io.ReadCloser
+	n int
+}
+
+func (p *pieceReader) Read(b []byte) (int, error) {
+	if len(b) > p.n {
+		b = b[:p.n]
+	}
+	return p.r.Read(b)
+}
+func (p *pieceReader) Close() error { return p.r.Close() }
 
 // New returns an empty registry.
 func New() *Registry { return &Registry{blobs: map[string][]byte{}} }
@@ -227,6 +242,9 @@ func (r *Registry) RoundTrip(req *http.Request) (*http.Response, error) {
 			sort.Slice(rs, func(i, j int) bool { return rs[i].B > rs[j].B })
 		}
 		resp = multipartResp(req, blob, rs)
+	}
+	if r.Piece > 0 {
+		resp.Body = &pieceReader{r: resp.Body, n: r.Piece}
 	}
 	if act.Kind == "truncate" {
 		b, _ := io.ReadAll(resp.Body)
